@@ -115,6 +115,10 @@ class Facts:
 
     def __init__(self, d):
         self.d = d
+        import hashlib
+
+        # content hash taken before any engine attaches per-instance caches to the dicts
+        self.hash = hashlib.sha256(json.dumps({k: v for k, v in d.items() if k not in ("nonce", "_export_s", "_config_name")}, sort_keys=True).encode()).hexdigest()
         self.config = d.get("_config_name")
         self.types = d["types"]
         self.instances = d["instances"]
